@@ -4,6 +4,7 @@ import (
 	"bytes"
 	"encoding/base64"
 	"encoding/hex"
+	"fmt"
 	"os"
 	"path/filepath"
 	"strings"
@@ -22,6 +23,9 @@ type ACLCase struct {
 	Rules []model.Rule `json:"rules"` // the restricted caller's grant
 	Ops   []dbx.Op     `json:"ops"`   // calls by the restricted caller
 	HTTP  bool         `json:"http"`  // through the registered handlers + Client, or db.DB directly
+	// further restricted callers (op.Caller 2, 3, 4): two tagged devices (no user identity) and one
+	// node of the SAME user as caller 1 holding a different grant
+	Others [][]model.Rule `json:"others,omitempty"`
 }
 
 var c01Names = []string{"a", "b", "dev/a", "dev/b", "prod/a", "a*", "a\nb", "_internal/x", "", "a", "dev/a", "a ", " dev/a"}
@@ -46,9 +50,19 @@ func genACLCase(rt *rapid.T) ACLCase {
 		return dbx.GenOp(rt, c01Names, []string{"put", "put", "put", "put", "activate", "delver", "del"}, 1)
 	}), 0, 14).Draw(rt, "pre")
 	c.Rules = genRuleSet(rt)
+	if rapid.IntRange(0, 2).Draw(rt, "withothers") == 0 {
+		n := rapid.IntRange(1, 3).Draw(rt, "nothers")
+		for i := 0; i < n; i++ {
+			c.Others = append(c.Others, genRuleSet(rt))
+		}
+	}
+	kinds := c01Kinds
+	if len(c.Others) > 0 {
+		kinds = append(append([]string{}, c01Kinds...), "list", "list", "list")
+	}
 	c.Ops = rapid.SliceOfN(rapid.Custom(func(rt *rapid.T) dbx.Op {
-		o := dbx.GenOp(rt, c01Names, c01Kinds, 1)
-		o.Caller = 1
+		o := dbx.GenOp(rt, c01Names, kinds, 1)
+		o.Caller = 1 + rapid.IntRange(0, len(c.Others)).Draw(rt, "caller")
 		return o
 	}), 1, 25).Draw(rt, "ops")
 	return c
@@ -103,16 +117,33 @@ func runC01(t *testing.T, c ACLCase) (*h.Violation, h.Info) {
 	}
 	su := dbx.Super()
 	low := dbx.Restricted(1, c.Rules)
+	callers := []dbx.CallerM{su, low}
+	for i, rs := range c.Others {
+		var o dbx.CallerM
+		switch i {
+		case 0:
+			o = dbx.Restricted(2, rs) // tagged
+		case 1:
+			o = dbx.Restricted(4, rs) // tagged
+		default:
+			o = dbx.Restricted(5, rs) // another node of caller 1's user
+			o.User = low.User
+		}
+		callers = append(callers, o)
+	}
+	if len(c.Others) > 0 {
+		info.Class(fmt.Sprintf("restricted-callers-%d", 1+len(c.Others)))
+	}
 	var tgt, twinTgt dbx.Target = dbx.DBTarget{D: d}, dbx.DBTarget{D: twin}
 	var ht, htTwin *dbx.HTTPTarget
 	tr := dbx.NewTracker()
 	if c.HTTP {
 		info.Class("path-http")
-		ht, err = dbx.NewHTTP(d, []dbx.CallerM{su, low})
+		ht, err = dbx.NewHTTP(d, callers)
 		if err != nil {
 			return h.V("harness", "server: %v", err), info
 		}
-		htTwin, _ = dbx.NewHTTP(twin, []dbx.CallerM{su, low})
+		htTwin, _ = dbx.NewHTTP(twin, callers)
 		tgt, twinTgt = ht, htTwin
 		tr.Wire = true
 	} else {
@@ -140,10 +171,14 @@ func runC01(t *testing.T, c ACLCase) (*h.Violation, h.Info) {
 	}
 	sawDeniedExisting, sawAllowed := false, false
 	for i, op := range c.Ops {
+		if op.Caller < 1 || op.Caller >= len(callers) {
+			op.Caller = 1
+		}
+		low := callers[op.Caller]
 		ver := tr.Resolve(op)
 		existed := tr.M[op.Name] != nil
 		before := tr.M.String()
-		want := tr.Expect(c.Rules, op, ver)
+		want := tr.Expect(low.Rules, op, ver)
 		got := tgt.Do(low, op, ver)
 		if op.Kind == "put" {
 			putValues = append(putValues, op.Val)
@@ -155,7 +190,7 @@ func runC01(t *testing.T, c ACLCase) (*h.Violation, h.Info) {
 			} else if op.Kind == "list" {
 				clause = "list-shows-exactly-info-grants"
 			}
-			return h.V(clause, "step %d %s (version arg %d) by caller with rules %+v in state %s: %s", i, op, ver, c.Rules, before, diff), info
+			return h.V(clause, "step %d %s (version arg %d) by caller %d with rules %+v in state %s: %s", i, op, ver, op.Caller, low.Rules, before, diff), info
 		}
 		if want.Class == model.Denied {
 			if existed {
@@ -192,7 +227,7 @@ func runC01(t *testing.T, c ACLCase) (*h.Violation, h.Info) {
 			if want.Class == model.Denied {
 				clause = "denied-call-changes-nothing"
 			}
-			return h.V(clause, "step %d %s by caller with rules %+v: %s", i, op, c.Rules, diff), info
+			return h.V(clause, "step %d %s by caller with rules %+v: %s", i, op, low.Rules, diff), info
 		}
 	}
 	if dump, err := dbx.Dump(twin); err != nil || len(dump) != 0 {
